@@ -96,9 +96,14 @@ func (f *flattener) stmt(s *Stmt) {
 		f.emit(W("bind"), W(s.Name))
 		if s.Sel != "" {
 			f.emit(P(":"))
-			if s.Sel == "1" {
-				f.emit(Tok{Kind: TInt, Text: "1"})
-			} else {
+			switch c := s.Sel[0]; {
+			case c >= '0' && c <= '9' && strings.ContainsAny(s.Sel, ".e") && !strings.HasPrefix(s.Sel, "0x"):
+				f.emit(Tok{Kind: TFloat, Text: s.Sel})
+			case c >= '0' && c <= '9':
+				f.emit(Tok{Kind: TInt, Text: s.Sel})
+			case c == '"':
+				f.emit(Tok{Kind: TStr, Text: s.Sel})
+			default:
 				f.emit(W(s.Sel))
 			}
 		}
